@@ -9,7 +9,8 @@ for m in mutants/*.patch; do
   if echo "$out" | grep -q "MISSED"; then missed=$((missed+1)); elif echo "$out" | grep -q "CAUGHT"; then caught=$((caught+1)); else other=$((other+1)); fi
 done
 for s in seeded/[A-Z]*/; do
-  prop=$(python3 -c "import json;print(json.load(open('$s/meta.json'))['property'])")
+  prop=$(python3 -c "import json;m=json.load(open('$s/meta.json'));print(m.get('check') or m['property'])")
+  if [ "$prop" = none ]; then echo "SEED $(basename $s): out of reach (see meta.json)"; other=$((other+1)); continue; fi
   out=$(tools/seedcheck.sh "$s" $prop -- "${1:-quick}" 2>&1); echo "$out" | grep -E "SEED|CAUGHT|missed|INFRA" | tr '\n' ' '; echo
   if echo "$out" | grep -q "CAUGHT"; then caught=$((caught+1)); elif echo "$out" | grep -q "missed"; then missed=$((missed+1)); else other=$((other+1)); fi
 done
